@@ -84,6 +84,10 @@ type Machine struct {
 	wgs     map[*Value]*wgState
 	onces   map[*Value]*onceState
 	pools   map[*Value]*[]Value
+	// happens-before tracking (Config.RaceMaps)
+	syncVCs      map[any]*vclock
+	mapRaces     map[*Map]*mapRaceState
+	raceReported bool
 	opaqueN int
 
 	instrs     int64
@@ -766,7 +770,11 @@ func (m *Machine) visitInstr(fr *frame, instr ssa.Instruction) continuation {
 		fr.env[instr] = m.newMap(mt.Key(), mt.Elem())
 
 	case *ssa.Range:
-		fr.env[instr] = m.rangeIter(m.get(fr, instr.X))
+		x := m.get(fr, instr.X)
+		if mp, ok := x.(*Map); ok {
+			m.raceMap(fr, mp, false)
+		}
+		fr.env[instr] = m.rangeIter(x)
 
 	case *ssa.Next:
 		fr.env[instr] = m.get(fr, instr.Iter).(iter).next(m)
@@ -847,6 +855,7 @@ func (m *Machine) visitInstr(fr *frame, instr ssa.Instruction) continuation {
 		k := m.get(fr, instr.Index)
 		switch x := x.(type) {
 		case *Map:
+			m.raceMap(fr, x, false)
 			v, ok := m.mapLookup(x, k)
 			if !ok {
 				v = m.zero(instr.X.Type().Underlying().(*types.Map).Elem())
@@ -864,6 +873,7 @@ func (m *Machine) visitInstr(fr *frame, instr ssa.Instruction) continuation {
 
 	case *ssa.MapUpdate:
 		mp := m.get(fr, instr.Map).(*Map)
+		m.raceMap(fr, mp, true)
 		m.mapUpdate(mp, m.get(fr, instr.Key), copyVal(m.get(fr, instr.Value)))
 
 	case *ssa.TypeAssert:
